@@ -1,5 +1,5 @@
 SPECIFICATION Spec
-CONSTANT MaxLen = 5
+CONSTANT MaxLen = 4
 CONSTANT MaxAvail = 6
 CONSTANT Mode = "split"
 CONSTANT Kinds = {"msg", "notice"}
